@@ -268,28 +268,30 @@ impl Range {
 
             let is_link = boxed_is_link.unwrap();
             if is_link {
-                let boxed_points_to = FileExt::symlink_points_to(&static_filepath);
-                if boxed_points_to.is_err() {
+                // the file the operating system reaches through the link: resolving the link text
+                // against the path as requested goes wrong when that path itself runs through a
+                // linked directory and the target starts with '..'
+                let boxed_resolved_link = std::fs::canonicalize(&static_filepath);
+                if boxed_resolved_link.is_err() {
                     let error = Error {
                         status_code_reason_phrase: STATUS_CODE_REASON_PHRASE.n500_internal_server_error,
-                        message: boxed_points_to.err().unwrap()
+                        message: boxed_resolved_link.err().unwrap().to_string()
                     };
                     eprintln!("{}", &error.message);
                     return Err(error);
                 }
 
-                let points_to = boxed_points_to.unwrap();
-                let reversed_link = &static_filepath.chars().rev().collect::<String>();
-
-                let mut symlink_directory = SYMBOL.empty_string.to_string();
-                let boxed_split = reversed_link.split_once(&FileExt::get_path_separator());
-                if boxed_split.is_some() {
-                    let (_filename, path) = boxed_split.unwrap();
-                    symlink_directory = path.chars().rev().collect::<String>();
+                let resolved_link = boxed_resolved_link.unwrap();
+                let boxed_resolved_link_as_str = resolved_link.to_str();
+                if boxed_resolved_link_as_str.is_none() {
+                    let error = Error {
+                        status_code_reason_phrase: STATUS_CODE_REASON_PHRASE.n500_internal_server_error,
+                        message: "symlink target is not valid utf-8".to_string()
+                    };
+                    eprintln!("{}", &error.message);
+                    return Err(error);
                 }
-
-                let resolved_link = FileExt::resolve_symlink_path(&symlink_directory, &points_to).unwrap();
-                path = resolved_link;
+                path = boxed_resolved_link_as_str.unwrap().to_string();
             }
 
             let boxed_content_range_list = Range::parse_content_range(&path, md.len(), &range.value);
